@@ -111,3 +111,26 @@ V("c04-silent-at-root-prune-flag", "C04", HX, "snapshot = type(self)(self.db, at
 V("c04-at-root-copy-db", "C04", HX, "snapshot = type(self)(self.db, at_root_hash, prune=False)", "snapshot = type(self)(dict(self.db), at_root_hash, prune=False)", rule="AL4")
 # --- C06 ORD3 -----------------------------------------------------------------------
 V("c06-set-not-decorated", "C06", HX, "    @prune_pending\n    def set(self, key, value):", "    def set(self, key, value):", rule="ORD3")
+
+# --- C18 ------------------------------------------------------------------------------
+V("c18-set-value-unvalidated", "C18", HX, "        validate_is_bytes(key)\n        validate_is_bytes(value)\n\n        trie_key = bytes_to_nibbles(key)\n\n        try:\n            root_node = self.get_node(self.root_hash)\n\n            if value",
+  "        validate_is_bytes(key)\n\n        trie_key = bytes_to_nibbles(key)\n\n        try:\n            root_node = self.get_node(self.root_hash)\n\n            if value", rule="VAL1")
+V("c18-bin-set-value-unvalidated", "C18", BN, "        validate_is_bytes(key)\n        validate_is_bytes(value)\n\n        self.root_hash = self._set(self.root_hash, encode_to_bin(key), value)",
+  "        validate_is_bytes(key)\n\n        self.root_hash = self._set(self.root_hash, encode_to_bin(key), value)", rule="VAL1")
+V("c18-hexary-init-root-unvalidated", "C18", HX, "        self.db = db\n        validate_is_bytes(root_hash)\n        self.root_hash = root_hash", "        self.db = db\n        self.root_hash = root_hash", rule="VAL1")
+V("c18-get-proof-key-unvalidated", "C18", HX, "    def get_proof(self, key):\n        validate_is_bytes(key)\n", "    def get_proof(self, key):\n", rule="VAL1")
+V("c18-smt-get-length-unvalidated", "C18", SM, "        validate_is_bytes(key)\n        validate_length(key, self._key_size)\n        branch = []", "        validate_is_bytes(key)\n        branch = []", rule="VAL2")
+V("c18-calc-root-branch-length", "C18", SM, "    validate_is_bytes(value)\n    validate_length(branch, len(key) * 8)\n\n    path = to_int(key)", "    validate_is_bytes(value)\n\n    path = to_int(key)", rule="VAL2")
+V("c18-from-db-root-length", "C18", SM, "        validate_length(root_hash, 32)  # Must be a bytes32 hash\n", "", rule="VAL2")
+V("c18-keysize-zero", "C18", SM, "if not 1 <= key_size <= 32:", "if not 0 <= key_size <= 32:", rule="VAL3")
+V("c18-silent-keysize-respelled", "C18", SM, "if not 1 <= key_size <= 32:", "if key_size < 1 or key_size > 32:", expect="silent")
+V("c18-at-root-guard-removed", "C18", HX, "        if self.is_pruning:\n            raise ValidationError(\"Cannot use trie snapshot while pruning\")\n\n", "", rule="VAL3")
+V("c18-validator-moved-below-sink", "C18", HX, "        validate_is_bytes(key)\n\n        trie_key = bytes_to_nibbles(key)\n        root_hash = self.root_hash", "        trie_key = bytes_to_nibbles(key)\n        validate_is_bytes(key)\n        root_hash = self.root_hash", rule="VAL1")
+V("c18-silent-validator-in-helper", "C18", BN, "    def get(self, key):\n        \"\"\"\n        Fetches the value with a given keypath from the given node.\n\n        Key will be encoded into binary array format first.\n        \"\"\"\n        validate_is_bytes(key)\n\n        return self._get(self.root_hash, encode_to_bin(key))",
+  "    def _checked(self, key):\n        validate_is_bytes(key)\n        return key\n\n    def get(self, key):\n        self._checked(key)\n\n        return self._get(self.root_hash, encode_to_bin(key))", expect="silent")
+V("c18-proof-update-len-self-key", "C18", SM, "        validate_is_bytes(key)\n        validate_length(key, self._key_size)\n\n        # Path diff", "        validate_is_bytes(key)\n        validate_length(self.key, self._key_size)\n\n        # Path diff", rule="VAL2")
+V("c18-nibbles-bypass", "C18", TY, "cls, (Nibble(maybe_nibble) for maybe_nibble in nibbles)", "cls, (maybe_nibble for maybe_nibble in nibbles)", rule="VAL4")
+V("c18-traverse-no-nibbles", "C18", HX, "        trie_key = Nibbles(trie_key_input)\n\n        node, remaining_key = self._traverse(self.root_hash, trie_key)", "        trie_key = trie_key_input\n\n        node, remaining_key = self._traverse(self.root_hash, trie_key)", rule="VAL4")
+V("c18-refcount-guard-gone", "C18", HX, "            else:\n                raise ValueError(\n                    \"Cannot pass an existing reference count in to a non-pruning trie\"\n                )", "            else:\n                self._ref_count = None", rule="VAL3")
+V("c18-pending-reset-only-on-missing", "C18", HX, "        finally:\n            # Reset for next set/delete\n            self._pending_prune_keys = None",
+  "        except MissingTrieNode:\n            self._pending_prune_keys = None\n            raise\n        else:\n            self._pending_prune_keys = None", expect="fire", rule="ORD3", props=["C07"])
